@@ -79,7 +79,11 @@ def model_check(sd, tier):
         return json.load(open(cpath))
     t0 = time.time()
     parts = NPAR
-    res = _tlc_parts(sd, "fine", tier, parts)
+    _cfg(sd, "fix.cfg", "fine", tier, 0, 1, fix=True, extra_inv=("InvNoDeadlock",))
+    with cf.ThreadPoolExecutor(2) as ex:
+        ffix = ex.submit(vp.tlc, "LocksMC", "fix.cfg", sd, 4, None, 3000, "6g", False, True)
+        res = _tlc_parts(sd, "fine", tier, parts)
+        fx = ffix.result()
     out = dict(deadlocks=[], races=[], stuck_states=0, configs=0, distinct=0, generated=0, depth=0)
     for i, (d, r) in enumerate(res):
         m = json.load(open(os.path.join(d, "model_%d.json" % i)))
@@ -91,12 +95,22 @@ def model_check(sd, tier):
         out["generated"] += r["generated"]
         out["depth"] = max(out["depth"], r["depth"])
     # the repaired design: same configurations, P_C18_nodeadlock as a plain invariant
-    _cfg(sd, "fix.cfg", "fine", tier, 0, 1, fix=True, extra_inv=("InvNoDeadlock",))
-    fx = vp.tlc("LocksMC", "fix.cfg", sd, timeout=3000, heap="6g", quiet=True)
     out["fixed_design_ok"] = fx["ok"]
     out["fixed_design_states"] = fx["distinct"]
     if not fx["ok"]:
         raise vp.Fatal("the repaired design of Locks.tla still deadlocks: %s" % fx["violated"])
+    out["returns_checked"] = False
+    if tier == "thorough":
+        # P_C18_returns (every started handler eventually returns, weak fairness) as a temporal property on the repaired design
+        f = "TRUE"
+        open(os.path.join(sd, "live.cfg"), "w").write(
+            "CONSTANTS\n" + CONSTS % (f, f, f) + '  Mode = "fine"\n  Tier = "quick"\n  Part = 0\n  Parts = 1\n'
+            "SPECIFICATION Spec\nINVARIANT InvBounded\nINVARIANT InvNoDeadlock\nPROPERTY P_C18_returns\nCHECK_DEADLOCK FALSE\n")
+        lv = vp.tlc("LocksMC", "live.cfg", sd, timeout=3000, heap="8g", quiet=True)
+        if not lv["ok"]:
+            raise vp.Fatal("P_C18_returns fails on the repaired design: %s" % lv["violated"])
+        out["returns_checked"] = True
+        out["returns_states"] = lv["distinct"]
     out["wall"] = round(time.time() - t0, 1)
     vp.log("Locks.tla fine: %d configs, %d distinct states, %d deadlock classes (%d stuck states), %d race records; repaired design ok (%d states); %.0fs"
            % (out["configs"], out["distinct"], len(out["deadlocks"]), out["stuck_states"], len(out["races"]), fx["distinct"], out["wall"]))
@@ -108,7 +122,7 @@ def model_check(sd, tier):
 STAGE = {"ACP": "await_claim", "WCSV": "wait_csv", "ATB": "await_opening", "ATC": "await_conf"}
 CSVOF = {"not": "not", "edge": "edge", "just": "edge", "long": "long"}
 D0 = {"not": (0, 1), "edge": (1, 0), "just": (1, 1), "long": (2, 0)}
-ENTRY = {"pol_set": "pol_disable"}
+ENTRY = {"pol_set": "pol_disable", "msg_req": "msg_req_in"}
 
 
 def export_schedules(sd, tier):
@@ -213,7 +227,7 @@ def merge_traces(res, dst, keep=("reset", "start", "ret", "step", "after", "dead
                         m = e.pop("model", None) or {}
                         e.update(m)
                         e["wkind"] = "el" if e.get("watcher") == "el" else "rpc"
-                        meta[k] = dict(name=e.get("name"), file=outp)
+                        meta[k] = dict(name=e.get("name"), file=outp, entries=e.get("entries") or sorted((e.get("procs") or {}).values()))
                     e["t"] = k
                     if e["ev"] in ("deadlock",) and len(samples) < 3:
                         samples.append(e)
@@ -269,20 +283,30 @@ def run_c18(prop, tier):
     try:
         sd = vp.spec_copy(wd)
         binp = vp.build_harness("./cmd/locks")
-        model = model_check(sd, tier)
-        ms, gst = export_schedules(sd, tier)
+        t1 = time.time()
+        with cf.ThreadPoolExecutor(2) as ex:      # the two TLC explorations are independent
+            f1 = ex.submit(model_check, sd, tier)
+            f2 = ex.submit(export_schedules, sd, tier)
+            model, (ms, gst) = f1.result(), f2.result()
+        vp.log("TLC (instruction level, repaired design, gate level): %.0fs" % (time.time() - t1))
         rng = random.Random(vp.seed())
         scheds = harness_schedules(ms, tier, rng)
         rng.shuffle(scheds)
         vp.log("gate-level export: %d model schedules (%d predict a deadlock) -> %d harness schedules" % (len(ms), sum(1 for m in ms if m["deadlock"]), len(scheds)))
         grace = 1000 if tier == "quick" else 3000
+        t1 = time.time()
         res = run_cases(binp, "-sched", scheds, wd, "det", grace)
+        vp.log("deterministic schedules on the real code: %.0fs" % (time.time() - t1))
+        t1 = time.time()
         # seeded stress of entry-point pairs with free-running goroutines (watchdog only; the race detector is C19)
         scases = stress_cases(binp, wd, vp.seed(), 1 if tier == "quick" else 4)
         sres = run_cases(binp, "-stress", scases, wd, "stress", grace, extra=["-watchdog", "8000"])
+        vp.log("stress cases: %.0fs" % (time.time() - t1))
+        t1 = time.time()
         trace = os.path.join(sd, "all.ndjson")
         n, k, samples, meta = merge_traces(res + sres, trace)
         v = validate(sd, trace, n)
+        vp.log("trace validation: %d lines, %.0fs" % (n, time.time() - t1))
         ver = vp.Verdicts(prop)
         sigs = {}
         for x in v["viol"]:
@@ -297,8 +321,11 @@ def run_c18(prop, tier):
         problems = []
         if v["mismatch"]:
             problems.append("%d schedules where the real code leaves the behaviours of Locks.tla, first: %s" % (len({m["t"] for m in v["mismatch"]}), v["mismatch"][:3]))
-        if v["notreproduced"]:
-            problems.append("%d TLC deadlock candidates not reproduced on the real code, first: %s" % (len(v["notreproduced"]), v["notreproduced"][:3]))
+        # a schedule whose statically exported prediction was a deadlock but whose run did not end in one is a
+        # machinery problem only if the replay on the specification disagrees with the run (then it is a mismatch above):
+        # between gates the Go scheduler may resolve a lock hand-over differently from the exported branch
+        if v["unpredicted"]:
+            problems.append("%d deadlocks on the real code where the replayed specification has none, first: %s" % (len(v["unpredicted"]), v["unpredicted"][:3]))
         if v["unsettled"]:
             problems.append("%d runs did not settle, first: %s" % (len(v["unsettled"]), v["unsettled"][:3]))
         classes = {}
@@ -308,9 +335,13 @@ def run_c18(prop, tier):
         vp.write_evidence(prop, tier, "model_checking", dict(
             states=model["distinct"] + gst["distinct"], transitions=model["generated"] + gst["generated"],
             traces_validated_against_impl=k, samples=(samples + [json.loads(x) for x in open(trace).read().splitlines()[:3]])[:5],
+            evaluations=len(scheds) + len(scases), distinct_nontrivial=len({s["name"] for s in scheds if len(s["procs"]) >= 2}),
+            rule="one deterministic schedule per (configuration, outcome, first mover) of the gate-level exploration of Locks.tla, plus seeded stress "
+                 "cases; non-trivial = at least two concurrent entry points",
             configurations=model["configs"], model_deadlock_states=model["stuck_states"], model_deadlock_classes=len(classes),
             model_deadlock_kinds=sorted(classes)[:40],
             repaired_design_deadlock_free=model["fixed_design_ok"], repaired_design_states=model["fixed_design_states"],
+            repaired_design_returns_under_fairness_checked=model.get("returns_checked", False),
             gate_level_states=gst["distinct"], schedules_exported=len(ms), schedules_predicting_deadlock=sum(1 for m in ms if m["deadlock"]),
             schedules_run_on_real_code=len(scheds), stress_cases_run=len(scases), trace_lines_validated=n, steps_replayed_on_spec=v["replayed"],
             conformance_mismatches=len(v["mismatch"]), candidates_not_reproduced=len(v["notreproduced"]),
@@ -358,10 +389,20 @@ def parse_races(text):
     return out
 
 
+SETTERS = {"policy.(*Policy)." + x for x in ("DisableSwaps", "EnableSwaps", "AddToAllowlist", "RemoveFromAllowlist",
+                                             "AddToSuspiciousPeerList", "RemoveFromSuspiciousPeerList")}
+
+
 def site_of(frames, sites):
-    """innermost frame that is a lock-discipline site of the specification, else the innermost peerswap frame"""
+    """The function an access is attributed to: the innermost frame that is a lock-discipline site of the
+    specification (else the innermost peerswap frame). The policy setters are one site `<setter>`; ReloadFile
+    is distinguished by whether a setter (which holds the package mutex) called it."""
     ps = [f.replace(PEERSWAP, "") for f in frames if f.startswith(PEERSWAP)]
-    for f in ps:
+    for i, f in enumerate(ps):
+        if f in SETTERS:
+            return "policy.(*Policy).<setter>"
+        if f == "policy.(*Policy).ReloadFile":
+            return f + ("<setter" if i + 1 < len(ps) and ps[i + 1] in SETTERS else "")
         if f in sites:
             return f
     return ps[0] if ps else None
@@ -422,6 +463,10 @@ def run_c19(prop, tier):
         vp.write_evidence(prop, tier, "exploration", dict(
             states=model["distinct"], transitions=model["generated"], traces_validated_against_impl=k,
             samples=[dict(signature="C19|race|%s|%s" % kk, reports=r["n"]) for kk, r in sorted(reports.items())][:5] or [json.loads(x) for x in open(trace).read().splitlines()[:3]],
+            evaluations=k, distinct_nontrivial=len({re.sub(r"^r\d+/", "", m["name"]) for m in meta.values() if len(m["entries"]) >= 2}),
+            rule="stress case = two (sometimes three) entry points started concurrently, with seeded start delays, on one swap prepared in a state where "
+                 "both do something (entry point pair x role/stage variant x watcher x chain depth, drawn by VERIF_SEED); distinct = different "
+                 "(entry points, watcher, role, stage, depth, restart, real-loops) tuples with at least two entry points",
             monitor="Go race detector (go build -race -tags verif) on the real code; the specification supplies the schedule space and the predicted pairs",
             predicted_race_pairs=len(predicted), predicted=sorted("%s | %s | %s" % (a, b, ",".join(sorted(vs))) for (a, b), vs in predicted.items()),
             stress_cases_generated=len(cases), stress_cases_run=k, race_reports=nrep, distinct_detected_pairs=len(reports),
